@@ -51,7 +51,9 @@ def load_one(lit: LineIterator) -> dict:
     velocities = data[6]
     cellvecs = data[7]
     atffparams = {"attypes": attypes, "resnames": resnames, "resnums": resnums}
-    extra = {"time": time, "velocities": velocities}
+    extra = {"time": time}
+    if velocities is not None:
+        extra["velocities"] = velocities
     return {
         "atcoords": atcoords,
         "atffparams": atffparams,
@@ -93,23 +95,32 @@ def _helper_read_frame(lit: LineIterator) -> tuple:
     attypes = []
     pos = np.zeros((natoms, 3), np.float32)
     vel = np.zeros((natoms, 3), np.float32)
+    has_velocities = True
     for i in range(natoms):
         line = next(lit)
         resnums.append(int(line[:5]))
         resnames.append(line[5:10].split()[-1])
         attypes.append(line[10:15].split()[-1])
         words = line[20:].split()
-        if len(words) != 6:
+        if len(words) not in (3, 6):
             # Wide values make the fixed-width fields (3 x %8.3f, 3 x %8.4f) touch: cut them by column.
-            words = [line[20 + 8 * j : 28 + 8 * j] for j in range(6)]
+            nfield = 6 if len(line.rstrip()) > 44 else 3
+            words = [line[20 + 8 * j : 28 + 8 * j] for j in range(nfield)]
         pos[i, 0] = float(words[0])
         pos[i, 1] = float(words[1])
         pos[i, 2] = float(words[2])
-        vel[i, 0] = float(words[3])
-        vel[i, 1] = float(words[4])
-        vel[i, 2] = float(words[5])
+        if len(words) == 6:
+            vel[i, 0] = float(words[3])
+            vel[i, 1] = float(words[4])
+            vel[i, 2] = float(words[5])
+        else:
+            # The velocity columns are optional.
+            has_velocities = False
     pos *= nanometer  # atom coordinates are in nanometers
-    vel *= nanometer / picosecond
+    if has_velocities:
+        vel *= nanometer / picosecond
+    else:
+        vel = None
     # Read the cell line
     cell = np.zeros((3, 3), np.float32)
     words = next(lit).split()
